@@ -15,6 +15,7 @@
 -/
 import Orbiter.Lemmas.NoPanic
 import Orbiter.Lemmas.Encode
+import Orbiter.Lemmas.JsonText
 namespace Orbiter.C15
 open Orbiter
 
@@ -241,6 +242,15 @@ theorem c15_roundtrip_tree (π : OneofOrder) (nilPass : Bool) (memo : Bytes) (p 
     parsePayload π memo = .ok p :=
   parsePayload_of_tree π nilPass memo p hparse ht hv
 
+/-- **Round trip, text to payload.** Every payload within its Go types that passes `Payload.Validate` and whose free-text
+fields are printable ASCII (`Payload.textOk`: every address, amount, denomination and hook metadata that validation accepts is)
+serialises to a memo — the very bytes `types.MarshalJSON` writes, stream S1 — that the memo parser accepts and turns back into
+exactly that payload. -/
+theorem c15_roundtrip (π : OneofOrder) (nilPass : Bool) (p : Payload)
+    (ht : p.typed = true) (hv : p.validate = .ok ()) (hx : p.textOk = true) :
+    parsePayload π (marshalPayload nilPass p) = .ok p :=
+  c15_roundtrip_tree π nilPass _ p (parse_marshalled nilPass p hx) ht hv
+
 /-- The decoder inverts the marshaller on every well-typed payload, valid or not (what `Validate` then says is
 the same on both sides). -/
 theorem c15_decode_encode (π : OneofOrder) (nilPass : Bool) (p : Payload) (ht : p.typed = true) :
@@ -305,6 +315,46 @@ theorem c15_constructed (hrp : String) (orb : Bytes) (pid : Int) (a : Attrs) (pa
     simp [Action.typed, actionValid_fits hid, Attrs.isAction, Attrs.typed, hl]
   simp only [Payload.typed, Bool.and_eq_true, List.all_eq_true]
   exact ⟨hat, hft⟩
+
+/-- **Every payload built through the module's constructors serialises to a memo that parses back to an equal payload.**
+The only assumptions are facts of the argument types (uint32, 256-bit integers) and, for a Hyperlane forwarding, that the
+hook metadata and the denomination of a *zero* maximum fee are printable ASCII (the first is `0x` + hex whenever validation
+accepts it; the second is the one string no constructor validates). -/
+theorem c15_constructor_roundtrip (π : OneofOrder) (nilPass : Bool) (hrp : String) (orb : Bytes) (pid : Int) (a : Attrs) (pass : Bytes)
+    (f : Forwarding) (acts : List Action) (p : Payload)
+    (ha : a.isForwarding = true ∧ a.typed = true)
+    (hh : ∀ t d r k hm g fd fa, a = .hyp t d r k hm g fd fa → strOk hm = true ∧ (fa = 0 → strOk fd = true))
+    (hf : newAttrsForwarding hrp orb pid a pass = .ok f)
+    (hacts : ∀ act ∈ acts, ∃ l : List FeeInfo, l.all FeeInfo.typed = true ∧ newFeeAction hrp l = .ok act)
+    (hp : newPayload f acts = .ok p) :
+    parsePayload π (marshalPayload nilPass p) = .ok p := by
+  obtain ⟨hv, ht, hpe⟩ := c15_constructed hrp orb pid a pass f acts p ha hf hacts hp
+  refine c15_roundtrip π nilPass p ht hv ?_
+  subst hpe
+  -- the text of the attributes
+  have hfa : f.attrs = some a ∧ a.validate hrp orb = .ok () := by
+    unfold newAttrsForwarding newForwarding at hf
+    obtain ⟨u, hval, hf⟩ := Res.bind_eq_ok.mp hf
+    obtain ⟨_, _, hf⟩ := Res.bind_eq_ok.mp hf
+    simp only [Res.pure_eq, Res.ok.injEq] at hf
+    subst hf
+    cases u
+    exact ⟨rfl, hval⟩
+  have hacts' : ∀ act ∈ acts, (match act.attrs with | some at_ => at_.textOk | none => true) = true := by
+    intro act hact
+    obtain ⟨l, _, hx⟩ := hacts act hact
+    unfold newFeeAction newAction at hx
+    obtain ⟨u, hval, hx⟩ := Res.bind_eq_ok.mp hx
+    obtain ⟨_, _, hx⟩ := Res.bind_eq_ok.mp hx
+    simp only [Res.pure_eq, Res.ok.injEq] at hx
+    subst hx
+    cases u
+    exact attrs_validate_textOk hrp orb (.fee l) (by simp only [Attrs.validate]; exact hval) (by intro _ _ _ _ _ _ _ _ e; cases e)
+  unfold Payload.textOk
+  simp only [Bool.and_eq_true, List.all_eq_true]
+  refine ⟨hacts', ?_⟩
+  simp only [hfa.1]
+  exact attrs_validate_textOk hrp orb a hfa.2 hh
 
 /-! non-vacuity: a concrete constructor-built payload meets the hypotheses -/
 example :
